@@ -49,6 +49,16 @@ Reservoir Thickness, 0.25
 Reservoir Life Cycle, 25
 """
 
+HIPRA_BASE = """Reservoir Temperature, 250.0
+Rejection Temperature, 60.0
+Formation Porosity, 10.0
+Reservoir Area, 55.0
+Reservoir Thickness, 0.25
+Reservoir Life Cycle, 25
+"""
+HIPRA_INPUTS = [('Reservoir Temperature', 'uniform', 150.0, 300.0, None), ('Formation Porosity', 'uniform', 5.0, 160.0, None)]   # porosity > 100 fails
+HIPRA_OUTPUTS = ['Producible Electricity', 'Reservoir Volume']
+
 GEO_INPUTS = [
     ('Gradient 1', 'normal', 60.0, 4.0, None), ('Production Flow Rate per Well', 'uniform', 30.0, 70.0, None),
     ('Surface Temperature', 'triangular', 5.0, 15.0, 25.0), ('Reservoir Thermal Conductivity', 'lognormal', 1.0, 0.1, None),
@@ -70,22 +80,33 @@ def settings_text(inputs, outputs, iterations, out_file) -> str:
     return s
 
 
-def run_mc(kind: str, base_text: str, inputs: list, outputs: list, iterations: int, workers: int, timeout: int = 900) -> dict:
+CODE = {'geophires': 'geophires_x/GEOPHIRESv3.py', 'hip_ra_x': 'hip_ra_x/hip_ra_x.py', 'hip_ra': 'hip_ra/HIP_RA.py'}
+
+
+def run_mc(kind: str, base_text: str, inputs: list, outputs: list, iterations: int, workers: int, timeout: int = 900, relative: bool = False) -> dict:
+    """`relative`: the result file is named by a relative MC_OUTPUT_FILE line of the settings file (no output argument); the driver resolves
+    it against src/geophires_monte_carlo, where it is collected and removed again."""
     d = Path(tempfile.mkdtemp(prefix='vmc_', dir='/dev/shm' if os.path.isdir('/dev/shm') else None))
     tr = d / 'trace'
     tr.mkdir()
     base = d / 'base.txt'
     base.write_text(base_text)
-    out = d / 'MC_Result.txt'
+    import uuid
+    relname = f'verif_mc_{uuid.uuid4().hex[:10]}.txt'
+    out = (REPO / 'src' / 'geophires_monte_carlo' / relname) if relative else d / 'MC_Result.txt'
     st = d / 'settings.txt'
-    st.write_text(settings_text(inputs, outputs, iterations, out))
-    code = REPO / 'src' / ('geophires_x/GEOPHIRESv3.py' if kind == 'geophires' else 'hip_ra_x/hip_ra_x.py')
+    st.write_text(settings_text(inputs, outputs, iterations, relname if relative else out))
+    code = REPO / 'src' / CODE[kind]
     env = subprocess_env({'GEOPHIRES_X_VERIF_OBSERVER': 'harness.mc_observer', 'VERIF_MC_TRACE_DIR': str(tr), 'MPLBACKEND': 'Agg',
                           'TMPDIR': str(d)})
-    p = subprocess.run([sys.executable, '-m', 'harness.mc_driver', str(workers), str(code), str(base), str(st), str(out)],
-                       cwd=str(VERIF), env=env, capture_output=True, text=True, timeout=timeout)
+    try:
+        p = subprocess.run([sys.executable, '-m', 'harness.mc_driver', str(workers), str(code), str(base), str(st)] + ([] if relative else [str(out)]),
+                           cwd=str(VERIF), env=env, capture_output=True, text=True, timeout=timeout)
+    except BaseException:
+        _sweep(relname)
+        raise
     res = {'rc': p.returncode, 'stderr_tail': p.stderr[-1500:], 'kind': kind, 'workers': workers, 'iterations': iterations,
-           'inputs': inputs, 'outputs': outputs, 'base': base_text, 'events': {}, 'file': None, 'json': None}
+           'inputs': inputs, 'outputs': outputs, 'base': base_text, 'events': {}, 'file': None, 'json': None, 'relative': relative}
     for f in sorted(tr.glob('*.ndjson')):
         evs = [json.loads(ln) for ln in f.read_text().splitlines() if ln.strip()]
         evs.sort(key=lambda e: e['seq'])
@@ -96,7 +117,24 @@ def run_mc(kind: str, base_text: str, inputs: list, outputs: list, iterations: i
     if js.exists():
         res['json'] = json.loads(js.read_text())
     shutil.rmtree(d, ignore_errors=True)
+    if relative:
+        res['strays'] = _sweep(relname)
     return res
+
+
+def _sweep(relname: str) -> list:
+    """Remove everything a relative-output run left in the source tree; returns where rows were found outside the result file's place."""
+    stem = relname[:-4]
+    home = REPO / 'src' / 'geophires_monte_carlo'
+    strays = []
+    for f in list((REPO / 'src').rglob(stem + '*')) + list(REPO.glob(stem + '*')):
+        if f.parent != home and f.suffix == '.txt':
+            strays.append(str(f.parent.relative_to(REPO)))
+        try:
+            f.unlink()
+        except OSError:
+            pass
+    return strays
 
 
 ROW = re.compile(r'\(.*:.*\)\s*$')
@@ -159,7 +197,7 @@ def resimulate(item):
         bind_repo()
         import logging
         from hip_ra_x import HipRaXClient
-        from hip_ra import HipRaInputParameters
+        from hip_ra import HipRaClient, HipRaInputParameters
 
         d = tempfile.mkdtemp(prefix='vhip_', dir='/dev/shm' if os.path.isdir('/dev/shm') else None)
         f = Path(d, 'in.txt')
@@ -170,7 +208,7 @@ def resimulate(item):
             import contextlib
             import io
             with contextlib.redirect_stdout(io.StringIO()), contextlib.redirect_stderr(io.StringIO()):
-                r = HipRaXClient().get_hip_ra_result(HipRaInputParameters(file_path_or_params_dict=f))
+                r = (HipRaClient() if kind == 'hip_ra' else HipRaXClient()).get_hip_ra_result(HipRaInputParameters(file_path_or_params_dict=f))
             report = Path(r.output_file_path).read_text()
         except BaseException:  # noqa: BLE001
             report = None
